@@ -38,11 +38,14 @@ def algebra_text() -> str:
     return render_verus()
 
 
-def build_unit(unit_name: str, repo: str):
+def build_unit(unit_name: str, repo: str, variant: Optional[str] = None):
     sys.path.insert(0, VERIF)
     mod = importlib.import_module(f"units.{unit_name}")
     ub = UnitBuild({"name": mod.NAME, "specs": mod.SPECS}, repo)
-    mod.build(ub, algebra_text())
+    if variant is None:
+        mod.build(ub, algebra_text())
+    else:
+        mod.build(ub, algebra_text(), variant=variant)
     return mod, ub
 
 
@@ -119,7 +122,10 @@ def run_verus(path: str, ub: Optional[UnitBuild] = None, rlimit: Optional[float]
             if ub is not None and d["line"] is not None:
                 # prefer the span that lies in a verified function body
                 owner = None
-                for (ls, le, lab) in d["lines"]:
+                e0 = ub.fn_at_line(d["line"])
+                if e0 is not None and e0.kind == "verify":
+                    owner = e0
+                for (ls, le, lab) in ([] if owner else d["lines"]):
                     e = ub.fn_at_line(ls)
                     if e is not None and e.kind == "verify":
                         owner = e
